@@ -142,7 +142,9 @@ def parseOp (s : St) (toks : List String) : Option Op :=
     let on := kvStr toks "on" ≠ "0"
     match kvStr toks "kind" with
     | "open" => some (.gate .open on) | "write" => some (.gate .write on) | "read" => some (.gate .read on)
-    | "failwrite" => some (.gate .failWrite on) | "failopen" => some (.gate .failOpen on)
+    | "failwrite" => some (.gate .failWrite on)
+    | "failopen" => if kvStr toks "at" ≠ "" then some (.gate (.failOpenAt (kvNat toks "at")) on) else some (.gate .failOpen on)
+    | "writedone" => some (.gate .writeDone on)
     | _ => some .nop
   | "peer" =>
     let k := kvNat toks "k"
